@@ -301,3 +301,353 @@ Proof.
         repeat grow_step; repeat (grow_leaf IHe IHi IHh); chain.
 Qed.
 End Grow.
+
+Theorem store_monotone : forall genv k e st x r st',
+  eval genv k e st x = (r, st') -> st_le st st'.
+Proof. intros genv k. exact (proj1 (grow_all genv k)). Qed.
+
+Theorem store_monotone_items : forall genv k e st l last r st',
+  eval_items genv k e st l last = (r, st') -> st_le st st'.
+Proof. intros genv k. exact (proj1 (proj2 (grow_all genv k))). Qed.
+
+Theorem store_monotone_handlers : forall genv k e st ex cs call r st',
+  handlers genv k e st ex cs call = (r, st') -> st_le st st'.
+Proof. intros genv k. exact (proj2 (proj2 (grow_all genv k))). Qed.
+
+Corollary cells_only_grow : forall genv k e st x r st',
+  eval genv k e st x = (r, st') -> length (cells st) <= length (cells st').
+Proof. intros. eapply store_monotone; eauto. Qed.
+
+(* an existing cell index stays a valid cell index (cells are never removed or renumbered) *)
+Corollary cells_keep_index : forall genv k e st x r st' c,
+  eval genv k e st x = (r, st') -> get_cell st c <> None -> get_cell st' c <> None.
+Proof.
+  intros genv k e st x r st' c H. apply cells_only_grow in H. unfold get_cell.
+  rewrite !nth_error_Some. lia.
+Qed.
+
+(* array and record objects are never removed, renumbered or resized *)
+Corollary objects_keep_index : forall genv k e st x r st' i l,
+  eval genv k e st x = (r, st') ->
+  (nth_error (arrs st) i = Some l -> nth_error (arrs st') i = Some l) /\
+  (nth_error (recs st) i = Some l -> nth_error (recs st') i = Some l).
+Proof.
+  intros genv k e st x r st' i l H. apply store_monotone in H.
+  destruct H as [_ [[l2 H2] [[l3 H3] _]]]. rewrite H2, H3. split; intros G.
+  - rewrite nth_error_app1; auto. apply nth_error_Some; congruence.
+  - rewrite nth_error_app1; auto. apply nth_error_Some; congruence.
+Qed.
+
+(* ---- A2. the language rules of C02 ------------------------------------------------ *)
+
+Section Rules.
+Variable genv : env.
+
+Definition not_ok (r : res) : Prop := forall c, r <> ROk c.
+
+(* binary operands: left, then right (in the state the left one produced) *)
+Theorem binop_left_to_right : forall op k e st a b c1 st1 c2 st2, op <> And -> op <> Or ->
+  eval genv k e st a = (ROk c1, st1) -> eval genv k e st1 b = (ROk c2, st2) ->
+  eval genv (S k) e st (EBin op a b) = binop_result op c1 c2 st2.
+Proof. intros. rewrite eval_EBin by assumption. rewrite H1, H2. reflexivity. Qed.
+
+(* if the left operand does not yield a value the right one is not evaluated, whatever it is *)
+Theorem binop_left_raises : forall op k e st a b r st1, not_ok r ->
+  eval genv k e st a = (r, st1) -> eval genv (S k) e st (EBin op a b) = (r, st1).
+Proof.
+  intros op k e st a b r st1 Hr H.
+  destruct (binop_cases op) as [->|[->|[Hop1 Hop2]]];
+    [rewrite eval_EAnd | rewrite eval_EOr | rewrite eval_EBin by assumption];
+    rewrite H; destruct r; auto; exfalso; eapply Hr; eauto.
+Qed.
+
+Theorem binop_right_raises : forall op k e st a b c1 st1 r st2, op <> And -> op <> Or ->
+  not_ok r -> eval genv k e st a = (ROk c1, st1) -> eval genv k e st1 b = (r, st2) ->
+  eval genv (S k) e st (EBin op a b) = (r, st2).
+Proof.
+  intros op k e st a b c1 st1 r st2 H1 H2 Hr Ha Hb. rewrite eval_EBin by assumption.
+  rewrite Ha, Hb. destruct r; auto; exfalso; eapply Hr; eauto.
+Qed.
+
+(* argument lists: right to left.  Relational characterisation of the local evaluator. *)
+Inductive args_rtl (k : nat) (e : env) : list expr -> state -> list nat -> state -> Prop :=
+| rtl_nil : forall st, args_rtl k e [] st [] st
+| rtl_cons : forall a t st cs st1 c st2,
+    args_rtl k e t st cs st1 ->               (* first the arguments to the right of a ... *)
+    eval genv k e st1 a = (ROk c, st2) ->     (* ... then a, in the state they produced *)
+    args_rtl k e (a :: t) st (c :: cs) st2.
+
+Theorem eval_args_fold_right : forall k e l st,
+  eval_args genv k e l st =
+  fold_right (fun a acc =>
+                match acc with
+                | ((Some cs, _), st1) =>
+                  match eval genv k e st1 a with
+                  | (ROk c, st2) => ((Some (c :: cs), ROk 0), st2)
+                  | (r, st2) => ((None, r), st2)
+                  end
+                | r => r
+                end) ((Some [], ROk 0), st) l.
+Proof.
+  induction l; intros; [reflexivity|]. unfold eval_args in *. rewrite eval_args_f_cons, IHl.
+  simpl fold_right. destruct (fold_right _ _ l) as [[[cs|] r] s]; reflexivity.
+Qed.
+
+Theorem eval_args_rtl : forall k e l st cs st',
+  (exists r, eval_args genv k e l st = ((Some cs, r), st')) <-> args_rtl k e l st cs st'.
+Proof.
+  unfold eval_args. induction l as [|a t IH]; intros st cs st'.
+  - rewrite eval_args_f_nil. split.
+    + intros [r H]; inversion H; constructor.
+    + intros H; inversion H; subst; eauto.
+  - rewrite eval_args_f_cons. split.
+    + intros [r H].
+      destruct (eval_args_f _ t st) as [[o1 r1] s1] eqn:E1.
+      destruct o1 as [cs1|]; [|inversion H].
+      destruct (eval genv k e s1 a) as [r2 s2] eqn:E2.
+      destruct r2; inversion H; subst.
+      econstructor; eauto. apply IH; eauto.
+    + intros H; inversion H; subst.
+      match goal with H : args_rtl _ _ t _ _ _ |- _ => apply IH in H; destruct H as [r Ht] end.
+      rewrite Ht. match goal with H : eval _ _ _ _ _ = _ |- _ => rewrite H end. eauto.
+Qed.
+
+(* a call evaluates its arguments right to left, then the function expression, then applies *)
+Theorem call_args_then_function : forall k e st f args cs st1 cf st2,
+  args_rtl k e args st cs st1 -> eval genv k e st1 f = (ROk cf, st2) ->
+  eval genv (S k) e st (ECall f args) = apply_fun genv k st2 cf cs.
+Proof.
+  intros k e st f args cs st1 cf st2 Ha Hf. apply eval_args_rtl in Ha. destruct Ha as [r Ha].
+  rewrite eval_ECall, Ha, Hf. reflexivity.
+Qed.
+
+Theorem call_args_right_to_left : forall k e st f a1 a2 c2 st1 c1 st2 cf st3,
+  eval genv k e st a2 = (ROk c2, st1) ->      (* the LAST argument first, in the initial state *)
+  eval genv k e st1 a1 = (ROk c1, st2) ->     (* then the first argument *)
+  eval genv k e st2 f = (ROk cf, st3) ->      (* then the function expression *)
+  eval genv (S k) e st (ECall f [a1; a2]) = apply_fun genv k st3 cf [c1; c2].
+Proof.
+  intros. eapply call_args_then_function; eauto.
+  repeat econstructor; eauto.
+Qed.
+
+(* if the last argument does not yield a value, neither the first argument nor the function
+   expression is evaluated *)
+Theorem call_last_arg_raises : forall k e st f a1 a2 r st1, not_ok r ->
+  eval genv k e st a2 = (r, st1) -> eval genv (S k) e st (ECall f [a1; a2]) = (r, st1).
+Proof.
+  intros k e st f a1 a2 r st1 Hr H. rewrite eval_ECall. unfold eval_args.
+  rewrite !eval_args_f_cons, eval_args_f_nil, H.
+  destruct r; auto; exfalso; eapply Hr; eauto.
+Qed.
+
+Theorem call_first_arg_raises : forall k e st f a1 a2 c2 st1 r st2, not_ok r ->
+  eval genv k e st a2 = (ROk c2, st1) -> eval genv k e st1 a1 = (r, st2) ->
+  eval genv (S k) e st (ECall f [a1; a2]) = (r, st2).
+Proof.
+  intros k e st f a1 a2 c2 st1 r st2 Hr H2 H1. rewrite eval_ECall. unfold eval_args.
+  rewrite !eval_args_f_cons, eval_args_f_nil, H2, H1.
+  destruct r; auto; exfalso; eapply Hr; eauto.
+Qed.
+
+(* && and ||: the right operand is not evaluated when the left one decides *)
+Definition with_new_cell (st : state) (v : cellval) : state :=
+  {| cells := cells st ++ [v]; arrs := arrs st; recs := recs st; out := out st |}.
+
+Theorem and_short_circuits : forall k e st a c st1,
+  eval genv k e st a = (ROk c, st1) -> get_cell st1 c = Some (CBool false) ->
+  forall b, eval genv (S k) e st (EBin And a b) =
+            (ROk (length (cells st1)), with_new_cell st1 (CBool false)).
+Proof. intros k e st a c st1 H G b. rewrite eval_EAnd, H. unfold get_bool. rewrite G. reflexivity. Qed.
+
+Theorem or_short_circuits : forall k e st a c st1,
+  eval genv k e st a = (ROk c, st1) -> get_cell st1 c = Some (CBool true) ->
+  forall b, eval genv (S k) e st (EBin Or a b) =
+            (ROk (length (cells st1)), with_new_cell st1 (CBool true)).
+Proof. intros k e st a c st1 H G b. rewrite eval_EOr, H. unfold get_bool. rewrite G. reflexivity. Qed.
+
+(* fuel-free forms: b may print, fault or diverge -- it does not matter *)
+Theorem and_short_circuits_evaluates : forall e st a c st1,
+  evaluates genv e st a (ROk c) st1 -> get_cell st1 c = Some (CBool false) ->
+  forall b, evaluates genv e st (EBin And a b)
+              (ROk (length (cells st1))) (with_new_cell st1 (CBool false)).
+Proof.
+  intros e st a c st1 [k [H _]] G b. exists (S k). split; [|discriminate].
+  eapply and_short_circuits; eauto.
+Qed.
+
+Theorem or_short_circuits_evaluates : forall e st a c st1,
+  evaluates genv e st a (ROk c) st1 -> get_cell st1 c = Some (CBool true) ->
+  forall b, evaluates genv e st (EBin Or a b)
+              (ROk (length (cells st1))) (with_new_cell st1 (CBool true)).
+Proof.
+  intros e st a c st1 [k [H _]] G b. exists (S k). split; [|discriminate].
+  eapply or_short_circuits; eauto.
+Qed.
+
+(* the other way round: when the left operand does not decide, the right one IS evaluated *)
+Theorem and_evaluates_right : forall k e st a b c st1 c2 st2 v,
+  eval genv k e st a = (ROk c, st1) -> get_cell st1 c = Some (CBool true) ->
+  eval genv k e st1 b = (ROk c2, st2) -> get_cell st2 c2 = Some (CBool v) ->
+  eval genv (S k) e st (EBin And a b) = (ROk (length (cells st2)), with_new_cell st2 (CBool v)).
+Proof.
+  intros k e st a b c st1 c2 st2 v H G H2 G2. rewrite eval_EAnd, H. unfold get_bool.
+  rewrite G, H2, G2. reflexivity.
+Qed.
+
+(* binding never copies: the new name denotes the very cell of the initialiser *)
+Theorem binding_never_copies : forall k e st x y c rest last,
+  lookup_var genv y e = Some c ->
+  eval_items genv (S (S k)) e st (ILet x (EVar y) :: rest) last =
+    eval_items genv (S k) ((x, c) :: e) st rest (Some c) /\
+  eval_items genv (S (S k)) e st (IVar x (EVar y) :: rest) last =
+    eval_items genv (S k) ((x, c) :: e) st rest (Some c) /\
+  lookup_var genv x ((x, c) :: e) = lookup_var genv y e.
+Proof.
+  intros k e st x y c rest last H.
+  rewrite eval_items_ILet, eval_items_IVar, eval_EVar, H. repeat split; auto.
+  unfold lookup_var. simpl. rewrite N.eqb_refl. unfold lookup_var in H. auto.
+Qed.
+
+(* general form: any initialiser; the name is bound to the cell the initialiser evaluated to *)
+Theorem binding_shares_cell : forall k e st x a c st1 rest last,
+  eval genv k e st a = (ROk c, st1) ->
+  eval_items genv (S k) e st (ILet x a :: rest) last = eval_items genv k ((x, c) :: e) st1 rest (Some c) /\
+  eval_items genv (S k) e st (IVar x a :: rest) last = eval_items genv k ((x, c) :: e) st1 rest (Some c).
+Proof. intros. rewrite eval_items_ILet, eval_items_IVar, H. auto. Qed.
+
+(* assignment copies the payload into the left cell; every other cell is unchanged; arrays,
+   records and output are unchanged; the value of the assignment is the left cell *)
+Theorem assign_copies_payload : forall k e st x rhs cx cr st2 v,
+  lookup_var genv x e = Some cx ->
+  eval genv (S k) e st rhs = (ROk cr, st2) -> get_cell st2 cr = Some v ->
+  eval genv (S (S k)) e st (EAssign (EVar x) rhs) = (ROk cx, set_cell st2 cx v) /\
+  (get_cell st2 cx <> None -> get_cell (set_cell st2 cx v) cx = Some v) /\
+  (forall c, c <> cx -> get_cell (set_cell st2 cx v) c = get_cell st2 c) /\
+  arrs (set_cell st2 cx v) = arrs st2 /\ recs (set_cell st2 cx v) = recs st2 /\
+  out (set_cell st2 cx v) = out st2.
+Proof.
+  intros k e st x rhs cx cr st2 v Hx Hr Hv.
+  rewrite eval_EAssign, eval_EVar, Hx, Hr, Hv. repeat split; auto.
+  - unfold get_cell, set_cell; simpl. intros Hc. apply nth_error_list_upd_same.
+    apply nth_error_Some; auto.
+  - intros c Hc. unfold get_cell, set_cell; simpl. apply nth_error_list_upd_other; auto.
+Qed.
+
+(* an arithmetic / comparison result lives in a brand-new cell: its index is the number of
+   cells existing just before it was made, hence at least the number existing before the
+   operands were evaluated: it aliases nothing *)
+Theorem fresh_cell_for_arith : forall op k e st a b c st',
+  eval genv (S k) e st (EBin op a b) = (ROk c, st') ->
+  exists st2 v, st_le st st2 /\ c = length (cells st2) /\ st' = with_new_cell st2 v /\
+                length (cells st) <= c /\ get_cell st c = None.
+Proof.
+  intros op k e st a b c st' H.
+  assert (G : exists st2 v, st_le st st2 /\ fresh st2 v = (ROk c, st')).
+  { destruct (binop_cases op) as [->|[->|[Hop1 Hop2]]];
+      [rewrite eval_EAnd in H | rewrite eval_EOr in H | rewrite eval_EBin in H by assumption];
+      unfold binop_result in H;
+      repeat match goal with
+      | H : context[match ?X with _ => _ end] |- _ => destruct X eqn:?
+      end; try discriminate;
+      repeat match goal with
+      | H : eval _ _ _ _ _ = (_, _) |- _ => apply store_monotone in H
+      end;
+      do 2 eexists; (split; [|exact H]); eauto using st_le_trans. }
+  destruct G as [st2 [v [Hle Hf]]]. exists st2, v.
+  unfold fresh, alloc in Hf. inversion Hf; subst. destruct Hle as [Hl _].
+  repeat split; auto. unfold get_cell. apply nth_error_None. lia.
+Qed.
+
+End Rules.
+
+(* ---- closures (C08) --------------------------------------------------------------- *)
+
+Section Closures.
+Variable genv : env.
+
+(* a function value stores the current environment itself: names -> the SAME cells *)
+Theorem lambda_captures_env : forall k e st fd,
+  eval genv (S k) e st (ELambda fd) = (ROk (length (cells st)), with_new_cell st (CFun fd e)).
+Proof. reflexivity. Qed.
+
+Theorem func_item_captures_env : forall k e st fd rest last,
+  let c := length (cells st) in
+  let e' := (fd_name fd, c) :: e in
+  exists st1,
+    eval_items genv (S k) e st (IFunc fd :: rest) last = eval_items genv k e' st1 rest (Some c) /\
+    get_cell st1 c = Some (CFun fd e') /\
+    (forall c', c' <> c -> get_cell st1 c' = get_cell st c') /\
+    arrs st1 = arrs st /\ recs st1 = recs st /\ out st1 = out st.
+Proof.
+  intros k e st fd rest last c e'. eexists. split; [rewrite eval_items_IFunc; reflexivity|].
+  unfold get_cell, set_cell; simpl. repeat split; auto.
+  - apply nth_error_list_upd_same. rewrite app_length; simpl; lia.
+  - intros c' Hc. rewrite nth_error_list_upd_other by auto.
+    destruct (Nat.lt_ge_cases c' (length (cells st))) as [Hlt|Hge].
+    + apply nth_error_app1; auto.
+    + transitivity (@None cellval); [|symmetry]; apply nth_error_None; auto.
+      rewrite app_length; simpl; unfold c in *; lia.
+Qed.
+
+(* calling a function value runs its body in  parameters ++ captured environment, in the
+   CURRENT store: whatever has been assigned to a captured cell meanwhile is what it sees *)
+Theorem closure_call_uses_captured_env : forall k e st f args cs st1 cf st2 fd cenv penv,
+  args_rtl genv k e args st cs st1 -> eval genv k e st1 f = (ROk cf, st2) ->
+  get_cell st2 cf = Some (CFun fd cenv) -> bind_params (fd_params fd) cs = Some penv ->
+  eval genv (S k) e st (ECall f args) = call_body genv k (penv ++ cenv) st2 fd.
+Proof.
+  intros. erewrite call_args_then_function by eauto. unfold apply_fun.
+  rewrite H1, H2. reflexivity.
+Qed.
+
+Lemma bind_params_lookup_none : forall ps cs penv x,
+  bind_params ps cs = Some penv -> (forall p, In p ps -> fst (fst p) <> x) -> lookup x penv = None.
+Proof.
+  induction ps as [|[[y b] t] ps IH]; intros cs penv x H Hn; destruct cs; simpl in H; try discriminate.
+  - inversion H; reflexivity.
+  - destruct (bind_params ps cs) eqn:E; inversion H; subst. simpl.
+    assert (y <> x) by (apply (Hn (y, b, t)); simpl; auto).
+    destruct (N.eqb_spec x y); [congruence|]. eapply IH; eauto. intros; apply Hn; simpl; auto.
+Qed.
+
+(* inside the body a captured name denotes the captured cell (unless a parameter hides it) *)
+Theorem closure_var_denotes_captured_cell : forall k ps cs penv cenv x c st,
+  bind_params ps cs = Some penv -> (forall p, In p ps -> fst (fst p) <> x) ->
+  lookup x cenv = Some c ->
+  eval genv (S k) (penv ++ cenv) st (EVar x) = (ROk c, st).
+Proof.
+  intros k ps cs penv cenv x c st Hb Hn Hl. rewrite eval_EVar. unfold lookup_var.
+  assert (G : lookup x (penv ++ cenv) = Some c).
+  { pose proof (bind_params_lookup_none _ _ _ _ Hb Hn) as Hp. clear Hb Hn.
+    induction penv as [|[y cy] t IH]; simpl in *; auto.
+    destruct (N.eqb x y); [discriminate|auto]. }
+  rewrite G. reflexivity.
+Qed.
+
+(* every evaluation of a literal initialiser makes a new cell; a later activation gets a cell
+   that did not exist when the earlier one finished *)
+Theorem distinct_activations_distinct_cells : forall k1 k2 e1 e2 st1 st1' st2 st2' z1 z2 c1 c2,
+  eval genv k1 e1 st1 (EInt z1) = (ROk c1, st1') ->
+  st_le st1' st2 ->                 (* anything may happen in between: see store_monotone *)
+  eval genv k2 e2 st2 (EInt z2) = (ROk c2, st2') ->
+  c1 < c2 /\ c1 = length (cells st1) /\ c2 = length (cells st2) /\
+  get_cell st2 c2 = None /\ get_cell st2' c1 <> None.
+Proof.
+  intros k1 k2 e1 e2 st1 st1' st2 st2' z1 z2 c1 c2 H1 Hle H2.
+  destruct k1; [rewrite eval_O in H1; discriminate|].
+  destruct k2; [rewrite eval_O in H2; discriminate|].
+  rewrite eval_EInt in *. apply st_le_fresh in H1, H2.
+  destruct H1 as [_ [R1 [C1 _]]], H2 as [_ [R2 [C2 _]]]. inversion R1; inversion R2; subst.
+  destruct Hle as [Hl _]. rewrite C1, app_length in Hl. simpl in Hl.
+  unfold get_cell. rewrite nth_error_None, nth_error_Some, C2, app_length. simpl.
+  repeat split; lia.
+Qed.
+
+Theorem var_item_binds_new_cell : forall k e st x z rest last,
+  eval_items genv (S (S k)) e st (IVar x (EInt z) :: rest) last =
+  eval_items genv (S k) ((x, length (cells st)) :: e) (with_new_cell st (CInt (wrap32 z))) rest
+             (Some (length (cells st))).
+Proof. intros. rewrite eval_items_IVar, eval_EInt. reflexivity. Qed.
+
+End Closures.
